@@ -91,16 +91,16 @@ report the list of refactorings, the suite result and both digests.
 '''
 
 TARGETS = {
-    'B51': 'pyx12/error_handler.py: class err_iter (__next__, first, next), the navigation methods of err_node and its subclasses (get_first_child, get_next_sibling, get_parent, is_closed, _get_last_child), get_error_list of err_node/err_isa/err_gs/err_st, err_seg and err_ele.  Structural refactorings: early returns, extracted private helpers, loops to comprehensions/any/next, membership tests for or-chains, renamed locals',
-    'B52': 'pyx12/x12file.py: class X12Writer (Write, Close, _close_loop, _popToLoop, _close_iea, _close_ge, _close_se, _write_segment, _write_isa_segment, _get_trailer_segment).  Structural refactorings: while/if restructuring of _popToLoop, a dict from loop type to closing method or to (trailer id, counter attribute), early returns, locals, str.format / f-strings',
-    'B53': 'pyx12/scripts/x12valid.py, pyx12/scripts/x12html.py and pyx12/scripts/x12xml.py: the main() functions.  Structural refactorings: extracted per-file function, extracted target-name helper, context managers for the files where exactly equivalent, early continue guards, argument parser set-up in a helper',
-    'B54': 'pyx12/map_if.py: the lookup methods map_if.getnodebypath/getnodebypath2, loop_if.getnodebypath/getnodebypath2/childIterator/get_child_node_by_idx/get_first_node/get_first_seg, segment_if.getnodebypath2/get_child_node_by_idx/get_child_node_by_ordinal, is_match/is_match_qual.  Structural refactorings: shared iteration helper over pos_map, early returns, parsed path parts in locals, comprehension/next() for search loops',
-    'B55': 'pyx12/x12n_document.py function x12n_document: a MODERATE tidy-up that keeps one main function containing the segment loop - at most four extractions of private module-level functions (e.g. the 997/999 generation, the map lookup for GS, the HTML error-node collection), early continue guards, locals for repeated calls, str.format for %-formatting, if/elif reordering where independent',
-    'B56': 'pyx12/x12context.py: class X12ContextReader (__init__, iter_segments, _add_segment, _get_segment_node?, _reset_counter_to_isa_counts, _reset_counter_to_gs_counts, register_error_callback) second pass.  Structural refactorings: extract the map-selection part of iter_segments into a private method returning the new map node, early returns, locals, merged duplicated blocks',
-    'B57': 'pyx12/error_html.py (second pass: header, footer, gen_seg, gen_info, loop, _seg_str, _wrap_ele_error, seg_str, escape_html_chars) and pyx12/x12xml_simple.py.  Structural refactorings: one private method that writes an error line, list + join for repeated writes where the written text is identical, early continue, comprehension/loop conversions',
-    'B58': 'pyx12/segment.py third pass: Element, Composite and Segment - format, __repr__, is_empty, __len__, get_value, get, set, append, copy/__copy__, __eq__, is_seg_id_valid, values_iterator.  Structural refactorings: rstrip-style trimming ONLY where exactly equivalent, any()/all(), enumerate, early returns, shared private helpers',
-    'B59': 'pyx12/map_walker.py: walk_tree._check_seg_usage, _check_loop_usage, _flush_mandatory_segs, forceWalkCounterToLoopStart, getCountState/setCountState, __init__, and pyx12/nodeCounter.py.  Structural refactorings: a shared private helper for the "exceeded max count" report, early returns, locals for repeated counter lookups, str.format, comprehension/loop conversions',
-    'B60': 'pyx12/error_997.py and pyx12/error_999.py third pass: visit_root_pre, visit_gs_pre, visit_st_pre, visit_st_post, __get_isa_errors/__get_st_errors, _write.  Structural refactorings: a table of (position, source element) for the ISA/GS construction, shared base-class style helpers inside each file, loops for repeated appends, locals, early returns',
+    'B61': 'pyx12/x12file.py: X12Reader.__iter__, X12Reader._parse_segment, X12Reader.cleanup, X12Base.pop_errors/_isa_error/_gs_error/_st_error/_seg_error, the get_* accessors (get_isa_id, get_gs_id, get_st_id, get_ls_id, get_seg_count, get_cur_line, get_term).  Light structural refactorings: early returns, next()/generator expressions for the search loops of the accessors, locals, str.format, a helper for the repeated "find last loop of a type" scan',
+    'B62': 'pyx12/map_if.py: class x12_node (get_path, _get_x12_path, is_first_seg_in_loop, is_map_root, is_loop, is_segment, is_element, is_composite, __eq__/__ne__/__lt__ family, getnodebypath stubs) and element_if (__init__, _error, _valid_code, _is_valid_code, get_data_type, get_seg_count) and composite_if.__init__.  Structural refactorings: early returns, cached-path blocks restructured without changing when the cache is filled, locals, str.format, comprehension/loop conversions',
+    'B63': 'pyx12/error_handler.py: err_isa/err_gs/err_st/err_seg/err_ele __init__, close(), add_error, err_count, get_error_count, child_err_count, get_cur_line, the ack_code properties; errh_null.  Structural refactorings: shared private helpers for the count sums, try/except blocks narrowed ONLY where exactly equivalent, early returns, locals, conditional expressions',
+    'B64': 'pyx12/x12context.py: X12DataNode.get_value/set_value/exists/count/select/_select/_get_start_node/delete, X12SegmentDataNode (get_value, set_value, get_first_matching_segment, _select, copy) and X12LoopDataNode.get_first_matching_segment/get_value/set_value.  Structural refactorings: shared path-splitting helper, early returns, generator/comprehension conversions, locals',
+    'B65': 'pyx12/codes.py (ExternalCodes.__init__, isValid, debug_print), pyx12/params.py (ParamsBase, params, _read_config_file) and pyx12/map_index.py (second pass: __init__, add_map, get_filename, get_abbr, print_all).  Structural refactorings: extracted loaders, dict.get / setdefault where exactly equivalent, early returns, comprehension/loop conversions, str.format',
+    'B66': 'pyx12/xmlwriter.py (XMLWriter: push, pop, elem, empty, doctype, _escape_cont, _escape_attr, _write, __len__), pyx12/x12xml.py and pyx12/x12xml_simple.py (second pass of seg, __init__, __del__, _get_*_info).  Structural refactorings: shared attribute-rendering helper in the writer, replace-chains as loops over a table, early returns, locals',
+    'B67': 'pyx12/scripts/x12norm.py, pyx12/scripts/x12info.py and pyx12/scripts/xmlx12.py: the main() functions and their helpers.  Structural refactorings: extracted per-file function, extracted "write the result to the chosen target" helper, argument parser set-up in a helper, early continue guards, with-statements only where exactly equivalent',
+    'B68': 'pyx12/syntax.py (is_syntax_valid and its helpers) and pyx12/validation.py (second pass: is_valid_time, contains_control_character, not_match_re, match_re).  Structural refactorings: per-letter predicates picked from a dict, any()/all()/sum() for the presence counts, early returns, locals; regex literals stay byte-identical',
+    'B69': 'pyx12/map_walker.py: walk_tree.walk (only early-return / local / rename level changes), get_pop_loops, get_push_loops, common_root_node, traverse_path, pop_to_parent_loop, is_first_seg_match2, _is_loop_match, _goto_seg_match.  Structural refactorings: zip/enumerate for the index loops of the path comparison, early returns, locals, comprehension/loop conversions',
+    'B70': 'pyx12/error_997.py and pyx12/error_999.py: visit_seg, visit_ele, _write (997), __init__, visit_isa_pre/post, and pyx12/error_visitor.py.  Structural refactorings: the AK3/IK3 and AK4/IK4 construction through small private builders, code filters as comprehensions, conditional expressions, locals, early returns',
 }
 
 
